@@ -19,6 +19,8 @@ INSTANCES = {
     "guix3e": ("leaves..tutorial_gui", "net1 net2 net3", False),
     "minx2": ("minimal..tutorial1,minimal..tutorial2", "net1 net2", True),
     "tut1x1": ("normal..tutorial1", "net1", True),
+    "tut13x2e": ("normal..tutorial1,normal..tutorial3", "net1 net2", False),
+    "guix2e": ("leaves..tutorial_gui", "net1 net2", False),
     "getx2": ("leaves..tutorial_get", "net1 net2", True),
     "tut13x4": ("normal..tutorial1,normal..tutorial3", "net1 net2 net3 net4", True),
     "tut3fedx2": ("normal..tutorial3", "net1 net2", True, {"vm1": "only Fedora\n", "vm2": "only Win7\n", "vm3": "only Ubuntu\n"}),
@@ -192,13 +194,32 @@ class Campaign:
         self.explorations.append(rec)
         return rec
 
+    def replay_model(self, inst_name, num, seed=1, maxbounce=2):
+        """spec -> code: behaviours TLC simulates on the algorithm model are driven through the real traversal"""
+        from . import replay as RP
+        inst = make_instance(inst_name).prepare()
+        r, behs, results = RP.replay_behaviours(os.path.join(self.work, "replay_" + inst_name), inst, num, depth=500, seed=seed, maxbounce=maxbounce)
+        rec = {"instance": inst_name, "behaviours": len(results), "exact": 0, "steps_compared": 0, "differences": []}
+        for res in results:
+            if "harness_error" in res:
+                raise C.MachineryError("scripted replay failed in the harness: %s" % res["harness_error"])
+            rec["steps_compared"] += min(res["steps_model"], res["steps_code"])
+            if res["first_difference"] is None and not res["problems"]:
+                rec["exact"] += 1
+            else:
+                rec["differences"].append({"at": res["at"], "problems": res["problems"][:2]})
+        self.replays = getattr(self, "replays", []) + [rec]
+        for d in rec["differences"][:2]:
+            self.conformance["diverged"].append({"instance": inst_name, "replay_of_model_behaviour": d})
+        return rec
+
     def evidence(self, tier, wall, nviol, rule, assumptions, extra=None):
         cov = {"states": max(self.states, 1), "transitions": max(self.transitions, 1), "traces_validated_against_impl": self.ntraces,
                "samples": self.samples or [{"note": "none"}], "events_validated": self.nevents, "instances": self.instances,
                "binding_selftest": self.selftest, "harness_errors": len(self.harness_errors),
                "rule": rule + "; distinct_nontrivial = recorded executions with at least one test execution, distinct by their sequence of seam events"}
         cov.update({"evaluations": self.ntraces, "distinct_nontrivial": len(self.distinct)})
-        cov["algorithm_model"] = {"explorations": self.explorations, "trace_conformance": dict(self.conformance, diverged=self.conformance["diverged"][:5])}
+        cov["algorithm_model"] = {"model_behaviours_replayed_on_code": getattr(self, "replays", []), "explorations": self.explorations, "trace_conformance": dict(self.conformance, diverged=self.conformance["diverged"][:5])}
         if self.explorations and all(x["ok"] for x in self.explorations):
             self.level = "model_checking"
             cov["states"] = self.states + sum(x["distinct_states"] for x in self.explorations)
@@ -231,6 +252,9 @@ def generic_run(pid, tier, seed, plan, make_jobs, signature, describe, settings_
                 raise C.MachineryError("vacuity guard: the model did not reproduce the known finding on %s" % ex["inst_name"])
             rec["ok"] = True
             rec["guard"] = "known finding reproduced by the model (expected)"
+    if explore_plan:
+        camp.replay_model("tut1x2e", 6 if tier == "quick" else 40, seed=seed + 1)
+        camp.replay_model("tut13x2e", 4 if tier == "quick" else 40, seed=seed + 2)
     for name, params, n in plan:
         inst = make_instance(name, params).prepare()
         jobs = make_jobs(inst, rng, n)
